@@ -20,11 +20,13 @@ func c17Configs(thorough bool) (cfgs []poolCfg, bounds []int) {
 		bounds = append(bounds, b)
 	}
 	ok, pn, er := reqSpec{Mode: modeOK, Other: true}, reqSpec{Mode: modePanic, Other: true}, reqSpec{Mode: modeError, Other: true}
+	nm := reqSpec{Mode: modeNilMap, Other: true}
 	b := 2
-	if thorough {
-		b = 3
-	}
 	for _, meth := range []string{"Execute", "ExecuteRulesWithSpecifiedEM"} {
+		b = 2
+		if thorough && meth == "Execute" {
+			b = 3 // three deviations for one method; everywhere does not finish in the budget
+		}
 		// M+1 clients x 1 request, fault subsets of size <= 1 (<= 2 thorough)
 		for _, first := range []reqSpec{ok, pn, er} {
 			add(poolCfg{Min: 1, Max: 2, EM: engine.SortModel, Method: meth, Clients: [][]reqSpec{{first}, {ok}, {ok}}}, b)
@@ -34,10 +36,14 @@ func c17Configs(thorough bool) (cfgs []poolCfg, bounds []int) {
 			}
 		}
 		// M clients x 2 requests (instances are reused)
-		for _, first := range []reqSpec{ok, pn, er} {
+		for _, first := range []reqSpec{ok, pn, er, nm} {
+			if first == nm && meth != "Execute" {
+				continue
+			}
 			add(poolCfg{Min: 1, Max: 2, EM: engine.SortModel, Method: meth, Clients: [][]reqSpec{{first, ok}, {ok, ok}}}, b)
 		}
 	}
+	b = 2
 	// pools whose free / additional list can hold one instance while another is being handed back
 	for _, sz := range [][2]int64{{2, 3}, {1, 3}} {
 		add(poolCfg{Min: sz[0], Max: sz[1], EM: engine.SortModel, Method: "Execute", Clients: [][]reqSpec{{ok}, {ok}, {ok}}}, b)
@@ -71,7 +77,7 @@ func c17Configs(thorough bool) (cfgs []poolCfg, bounds []int) {
 					bb = 1
 				}
 			}
-			add(poolCfg{Min: 1, Max: 2, EM: em, Method: m.Name, Clients: [][]reqSpec{{ok, pn, er, ok}}}, bb)
+			add(poolCfg{Min: 1, Max: 2, EM: em, Method: m.Name, Clients: [][]reqSpec{{ok, pn, er, nm, ok}}}, bb)
 			add(poolCfg{Min: 1, Max: 2, EM: em, Method: m.Name, Clients: [][]reqSpec{{pn}, {er}}}, bb)
 		}
 	}
@@ -96,10 +102,10 @@ func init() {
 	hx.Register(&hx.Prop{
 		ID:          "C17",
 		Workers:     func(string) int { return 16 },
-		BudgetQuick: 170 * time.Second,
+		BudgetQuick: 300 * time.Second,
 		BudgetThor:  30 * time.Minute,
 		Kind:        "schedules",
-		Rule: "pools (1,2), (2,3), (1,3) [thorough also (2,4),(3,4)]: M+1 (and M+2) clients x 1 request and M clients x 2 requests through Execute / ExecuteRulesWithSpecifiedEM with every fault subset of size <=1 (2) (injected panic, rule error), every schedule with <=2 (thorough 3) deviations from the default scheduler (delay bounding) incl. the busy-wait loop (fair yield) and the asynchronous put goroutines; " +
+		Rule: "pools (1,2), (2,3), (1,3) [thorough also (2,4),(3,4)]: M+1 (and M+2) clients x 1 request and M clients x 2 requests through Execute / ExecuteRulesWithSpecifiedEM with every fault subset of size <=1 (2) (injected panic, rule error, a store that panics inside reflect), every schedule with <=2 deviations from the default scheduler (delay bounding; thorough: 3 for Execute on pool (1,2), more fault pairs and pools) incl. the busy-wait loop (fair yield) and the asynchronous put goroutines; " +
 			"plus every one of the 24 execute methods x applicable execution models with ok/panicking/failing requests, and the stop-on-error paths of the five staged methods; after quiescence a conservation phase holds max requests inside a rule simultaneously (a lost instance = hang verdict). Oracle: in-flight rule bodies <= max, every request returns, errors only for a request's own faults, every rule body runs once, no rule of a request is still running after the request's pool call has returned",
 		Assume:  []string{"injected functions terminate", "sequentially consistent memory (races are C19's subject)", "a fresh pool is constructed per execution"},
 		Run:     func(c *hx.Ctx) { cfgs, b := c17Configs(c.Thorough()); runPoolConfigs(c, "C17", cfgs, b) },
